@@ -612,6 +612,14 @@ impl Board {
             return false;
         }
 
+        // no side can have more than 16 pieces; the move generator's fixed-size move list
+        // relies on this bound
+        if self.color_combined(Color::White).popcnt() > 16
+            || self.color_combined(Color::Black).popcnt() > 16
+        {
+            return false;
+        }
+
         // make sure there is exactly one white king
         if (self.pieces(Piece::King) & self.color_combined(Color::White)).popcnt() != 1 {
             return false;
